@@ -43,7 +43,7 @@ func tierGrids() []gridOpts {
 		far.Far = []int{9, 10, 11}
 		return []gridOpts{full, deep, expr, far}
 	}
-	// thorough: four grids, shallow and wide first
+	// thorough: six grids, shallow and wide first
 	a := full
 	a.N, a.MaxSlots, a.Rich = 5, 3, true
 	a.Strategies = strategiesFor(5)
@@ -60,7 +60,16 @@ func tierGrids() []gridOpts {
 	d := c
 	d.N = 4
 	d.DMin, d.DMax = 3, 3
-	return []gridOpts{a, b, c, d}
+	// less common configurations: selector written as expressions; condemned pods at multi-digit ordinals
+	odd := full
+	odd.MaxSlots, odd.DMin, odd.DMax = 1, 0, 2
+	odd.Strategies = []gen.Strategy{gen.RU(0), gen.RU(2), gen.OnDelete()}
+	odd.Histories = []history{histories[0], histories[1], histories[3], histories[5]}
+	expr := odd
+	expr.SelExpr = true
+	far := odd
+	far.Far = []int{9, 10, 11}
+	return []gridOpts{a, b, c, d, expr, far}
 }
 
 func monitorOf(props ...string) explore.JudgeFn {
